@@ -1,85 +1,150 @@
 """C16 — automated transactions add exactly the declared postings to each match.
 
 Theorems: lean/LedgerModel/Props/C16.lean over Model/AutoXact.lean (mirror of
-auto_xact_t::extend_xact, journal_t::add_xact/extend_xact, the reached part of
-xact_base_t::finalize/verify).  Tie: (a) tools/extract_autoxact.py pins the shape
-of extend_xact/post_pred/journal_t::extend_xact/add_xact into Gen/AutoXact.lean
-(`C16.shape_pinned`), (b) this check runs the model (driver op autoxact.load) and
-the rebuilt binary on the same journals interleaving rules and transactions and
-diffs canonical rows / error lists.  Oracle on the implementation (plain Python,
-Fractions, independent of the Lean model): a paired run of the same file with the
-rules commented out gives every transaction's postings as ledger itself reads
-them; the run with the rules must show, per transaction, exactly those rows
-followed by one row per (rule before the transaction in file order, original
-matching posting, rule line) with amount multiplier x matched (or as written), the
-rule line's account/kind, flagged generated; and it must be an error exactly when
-a rule leaves a must-balance residual.
+auto_xact_t::extend_xact incl. deferred notes, check/assert lines, amount
+expressions, rule-line costs, posting state; journal_t::add_xact/extend_xact; the
+reached part of xact_base_t::finalize/verify incl. costs and lots).  Tie: (a)
+tools/extract_autoxact.py pins the text of extend_xact / post_pred / verify /
+add_balancing_post / journal_t::extend_xact / add_xact into Gen/AutoXact.lean
+(`C16.fns_pinned`), (b) this check runs the model (driver op autoxact.load) and the
+rebuilt binary on the same journals interleaving rules and transactions and diffs
+canonical rows / warnings / error lists.  Oracle on the implementation (plain
+Python, Fractions, independent of the Lean model): a paired run of the same file
+with the rules commented out gives every transaction's postings as ledger itself
+reads them (amounts with their lots, costs, states, notes); `simulate` restates
+the property on those rows — per transaction, per rule before it in file order, per
+original (not generated) posting in order: match?, rule-level notes, checks /
+asserts, one row per rule line with the declared amount / account / kind / state /
+cost / note — and the run with the rules must show exactly that, or be an error
+exactly when the restated property says so.
 """
-import os, re, sys, json, copy, tempfile, shutil
+import os, re, sys, json, copy, tempfile, shutil, datetime
 from fractions import Fraction
 import vflib, jgen
 from vflib import Check
 
 MANIFEST = dict(
     text="Machine-checked proof (Lean 4) over a model of auto_xact_t::extend_xact / journal_t::add_xact that, for every transaction, "
-         "rule list and matching state: the extended transaction is the original postings followed, for each original non-generated "
-         "matching posting in order, by one posting per rule line with amount = multiplier x matched amount exactly (or the fixed "
-         "amount as written), the rule line's account ($account substituted) and kind, flagged generated; originals are an unchanged "
-         "prefix; generated postings are never matched again (same rule, later rules, or a second pass); rules only affect "
-         "transactions added after them; the memoised quick account-only matcher equals the general evaluator; an extension whose "
-         "added must-balance postings leave a residual is an error and the transaction is dropped (no size bounds). The shape of "
-         "extend_xact/post_pred/add_xact is re-extracted from xact.cc/journal.cc on every run and compared with a pinned copy; the "
-         "model is run against the rebuilt binary on journals interleaving 0-4 rules with 1-30 transactions, and an independent "
-         "Fraction oracle (paired run without the rules) supplies the failing input when anything breaks.",
+         "rule list and matching state: the memoised code loop equals a stateless specification; for predicates without any()/all() "
+         "the extended transaction is the original postings (matched ones gain only the rule-level notes) followed, for each original "
+         "non-generated matching posting in order, by one posting per rule line with amount = multiplier x matched amount exactly (the "
+         "matched amount keeps its lot; its cost plays no role), or the fixed amount as written, or the value of the line's amount "
+         "expression; the rule line's account ($account / %(account) / %(payee) substituted), kind, total cost, state (cleared when "
+         "the transaction is cleared) and notes; flagged generated; generated postings are never matched again; rules only affect "
+         "later transactions; the quick account-only matcher with its memo equals the general evaluator; a failing assert is an error, "
+         "a failing check never rejects; an extension that adds must-balance postings and leaves a residual (or a cost in the amount's "
+         "own commodity) is an error and the transaction is dropped (no size bounds). The text of the mirrored functions is "
+         "re-extracted from xact.cc/journal.cc on every run and compared with a pinned copy; the model is run against the rebuilt "
+         "binary on journals interleaving 0-4 rules with 1-30 transactions, and an independent Fraction oracle (paired run without the "
+         "rules) supplies the failing input when anything breaks.",
     note="Modelled, not verified: boost::regex (matcher is a parameter; compared for metacharacter-free patterns), the query/expr "
-         "parsers (covered only through the runs), GMP. Outside the model: costs/lots on postings, amount expressions and %(...) "
-         "accounts in rule lines, rule notes/check/assert lines, any()/all(). Postings that finalize itself creates for the 2nd+ "
-         "commodity of an elided amount carry ITEM_GENERATED and are, as coded, not matched by rules. 'No longer balances' is "
-         "ledger's display-precision zero test (a residual that rounds to zero is accepted).",
-    technique="Lean 4 proof (refinement of the memoised loop to a stateless list specification) + pinned source shape + differential model/binary check",
+         "parsers (covered only through the runs; check/amount expressions go through C15's expression model), GMP. any()/all() walk "
+         "the LIVE posting list, so postings a rule has just generated can make later postings of the same transaction match (modelled "
+         "and compared; the closed-form theorems assume any/all-free predicates). Postings that finalize itself creates for the 2nd+ "
+         "commodity of an elided amount carry ITEM_GENERATED and are, as coded, not matched by rules. 'No longer balances' is ledger's "
+         "display-precision zero test. Outside the model: balance assertions, a cost on a posting that already has a lot price, "
+         "tags/metadata parsed from notes, any(e, false).",
+    technique="Lean 4 proof (refinement of the memoised loop to a stateless specification) + pinned source text + differential model/binary check",
     ref="DESIGN.md §5 C16")
 
 COMMS = jgen.STD_COMMS[:3]          # $ (2), EUR (2), AAA (0)
 CM = {c.name: c for c in COMMS}
-FMT = "%(xact.beg_line)|%(beg_line)|%(account)|%(display_account)|%(verif_rational(amount))|%(virtual)|%(actual)|%(calculated)\\n"
+FMT = ("%(xact.beg_line)|%(beg_line)|%(account)|%(display_account)|%(verif_rational(amount))|%(verif_rational(lot_price(amount)))|"
+       "%(lot_date(amount))|%(has_cost)|%(verif_rational(cost))|%(cleared)|%(pending)|%(virtual)|%(actual)|%(calculated)|%(join(note))|\\n")
 
 ACCT_PATS = ["Food", "food", "Bank", "Expenses", "Assets", "Cash", "Out", "Rent", "Income", "Card", "Equity",
              "Assets:Bank", "Food:Out", "s:c", "e", "Savings", "Auto", "Budget", "Zzz"]
 PAYEE_PATS_Q = ["1", "2", "ee", "7", "10"]
 PAYEE_PATS_E = ["payee 1", "payee 2", "ee 3", "payee", "5", "payee 12"]
 RULE_ACCTS = ["Budget:Food", "Tax:$account", "$account:Auto", "Reserve", "Assets:Bank:Savings", "Expenses:Food:Auto",
-              "Liabilities:Tax", "$account"]
+              "Liabilities:Tax", "$account", "Fmt:%(account)", "By:%(payee)", "%(account):Sub"]
 MULTS = ["1", "-1", "0.1", "0.5", "-0.5", "0.25", "2", "0.015", "0.3333", "-0.1", "1.5", "0.0001", "0", "10", "-0.07", "0.125",
          "0.123456789", "1.000000", "-0.000001", "0.00", "-0", "100", "0.999999999999"]
+NOTE_WORDS = ["alpha", "beta gamma", "n1", "auto gen", "x y z"]
+EPOCH = datetime.date(1970, 1, 1)
+
+
+def fq(a):
+    return jgen.amt_q(a)
+
+
+def qstr(q):
+    q = Fraction(q)
+    return "%d/%d" % (q.numerator, q.denominator)
+
+
+# ---------------------------------------------------------------- rules: normal form
+
+
+def norm_rule(r):
+    """rule = {"pred","syntax","body":[entry...]}; older builders give "lines": [{"account","kind","amount"}]."""
+    if "body" not in r:
+        r["body"] = [dict(l, t="post") for l in r.get("lines", [])]
+    for e in r["body"]:
+        if e["t"] == "post":
+            e.setdefault("state", 0)
+            e.setdefault("cost", None)
+            e.setdefault("note", "")
+            e.setdefault("expr", None)
+            e.setdefault("amount", None)
+    r["lines"] = [e for e in r["body"] if e["t"] == "post"]
+    return r
+
+
+def norm_journal(j):
+    for r in j["rules"]:
+        norm_rule(r)
+    return j
+
+
+def posts_of(r):
+    return [e for e in r["body"] if e["t"] == "post"]
+
+
+def notes_for(r, i):
+    """deferred notes reaching the posting generated for rule line i (None = the matched posting)."""
+    out = []
+    k = -1
+    for e in r["body"]:
+        if e["t"] == "post":
+            k += 1
+        elif e["t"] == "note":
+            if k == -1 or (i is not None and k == i):
+                out.append(" " + e["text"])
+    return out
 
 
 # ---------------------------------------------------------------- predicates
 
 
-def pred_eval(p, account, payee, q):
+def pred_eval(p, row, payee, live):
     t = p["t"]
     if t == "const":
         return p["b"]
     if t == "acct":
-        return p["pat"].lower() in account.lower()
+        return p["pat"].lower() in row["account"].lower()
     if t == "payee":
         return p["pat"].lower() in payee.lower()
     if t == "gt":
-        return q > p["n"]
+        return row["q"] > p["n"]
     if t == "lt":
-        return q < p["n"]
+        return row["q"] < p["n"]
     if t == "ge":
-        return q >= p["n"]
+        return row["q"] >= p["n"]
     if t == "le":
-        return q <= p["n"]
+        return row["q"] <= p["n"]
     if t == "not":
-        return not pred_eval(p["a"], account, payee, q)
+        return not pred_eval(p["a"], row, payee, live)
     if t == "and":
-        return pred_eval(p["a"], account, payee, q) and pred_eval(p["b"], account, payee, q)
+        return pred_eval(p["a"], row, payee, live) and pred_eval(p["b"], row, payee, live)
     if t == "or":
-        return pred_eval(p["a"], account, payee, q) or pred_eval(p["b"], account, payee, q)
+        return pred_eval(p["a"], row, payee, live) or pred_eval(p["b"], row, payee, live)
     if t == "ite":
-        return pred_eval(p["a"] if pred_eval(p["c"], account, payee, q) else p["b"], account, payee, q)
+        return pred_eval(p["a"] if pred_eval(p["c"], row, payee, live) else p["b"], row, payee, live)
+    if t == "any":
+        return any(pred_eval(p["a"], r, payee, live) for r in live)
+    if t == "all":
+        return all(pred_eval(p["a"], r, payee, live) for r in live)
     raise ValueError(t)
 
 
@@ -112,6 +177,29 @@ def pred_expr(p):
     return "(%s)" % leaf_expr(p)
 
 
+def flat_atom(p):
+    if p["t"] in ("any", "all"):
+        a = p["a"]
+        inner = "%s & %s" % (leaf_expr(a["a"]), leaf_expr(a["b"])) if a["t"] == "and" else leaf_expr(a)
+        return "%s(%s)" % (p["t"], inner)
+    return leaf_expr(p)
+
+
+def pred_flat(p):
+    """`= expr` followed by ONE parenthesis-free expression (the only spelling the query lexer hands over whole when
+    it contains a call): atoms are leaves or any(...)/all(...); shapes A, A & B, A | B, (A & B) | C, A ? B : C."""
+    t = p["t"]
+    if t == "and":
+        return "%s & %s" % (flat_atom(p["a"]), flat_atom(p["b"]))
+    if t == "or":
+        l = p["a"]
+        ls = "%s & %s" % (flat_atom(l["a"]), flat_atom(l["b"])) if l["t"] == "and" else flat_atom(l)
+        return "%s | %s" % (ls, flat_atom(p["b"]))
+    if t == "ite":
+        return "%s ? %s : %s" % (flat_atom(p["c"]), flat_atom(p["a"]), flat_atom(p["b"]))
+    return flat_atom(p)
+
+
 def pred_query(p, top=True):
     """query syntax (what most users write after '='); only acct/payee/not/and/or."""
     t = p["t"]
@@ -141,21 +229,25 @@ def pred_kinds(p, out=None):
 
 
 def quick_only(p):
-    return not (pred_kinds(p) & {"payee", "gt", "lt", "ge", "le"})
+    return not (pred_kinds(p) & {"payee", "gt", "lt", "ge", "le", "any", "all"})
+
+
+def gen_leaf(rng, syntax):
+    leaf_q = ["acct"] * 6 + ["payee"]
+    leaf_e = ["acct"] * 5 + ["payee", "gt", "lt", "ge", "le", "const"]
+    t = rng.choice(leaf_q if syntax == "query" else leaf_e)
+    if t == "acct":
+        return {"t": "acct", "pat": rng.choice(ACCT_PATS)}
+    if t == "payee":
+        return {"t": "payee", "pat": rng.choice(PAYEE_PATS_Q if syntax == "query" else PAYEE_PATS_E)}
+    if t == "const":
+        return {"t": "const", "b": rng.random() < 0.5}
+    return {"t": t, "n": rng.choice([0, 0, 5, 10, -10, 100, -100, 50, 1000, -1])}
 
 
 def gen_pred(rng, depth, syntax):
-    leaf_q = ["acct"] * 6 + ["payee"]
-    leaf_e = ["acct"] * 5 + ["payee", "gt", "lt", "ge", "le", "const"]
     if depth == 0 or rng.random() < 0.45:
-        t = rng.choice(leaf_q if syntax == "query" else leaf_e)
-        if t == "acct":
-            return {"t": "acct", "pat": rng.choice(ACCT_PATS)}
-        if t == "payee":
-            return {"t": "payee", "pat": rng.choice(PAYEE_PATS_Q if syntax == "query" else PAYEE_PATS_E)}
-        if t == "const":
-            return {"t": "const", "b": rng.random() < 0.5}
-        return {"t": t, "n": rng.choice([0, 0, 5, 10, -10, 100, -100, 50, 1000, -1])}
+        return gen_leaf(rng, syntax)
     ops = ["not", "and", "or", "and", "or"] + ([] if syntax == "query" else ["ite"])
     t = rng.choice(ops)
     if t == "not":
@@ -165,44 +257,36 @@ def gen_pred(rng, depth, syntax):
     return {"t": t, "a": gen_pred(rng, depth - 1, syntax), "b": gen_pred(rng, depth - 1, syntax)}
 
 
-# ---------------------------------------------------------------- rules / journals
+def gen_flat_pred(rng):
+    """a predicate with any()/all(), in the flat spelling."""
+    def atom():
+        r = rng.random()
+        if r < 0.55:
+            inner = gen_leaf(rng, "expr")
+            if rng.random() < 0.25:
+                inner = {"t": "and", "a": inner, "b": gen_leaf(rng, "expr")}
+            return {"t": rng.choice(["any", "any", "all"]), "a": inner}
+        return gen_leaf(rng, "expr")
+    shape = rng.choice(["A", "A", "and", "or", "andor", "ite"])
+    first = {"t": rng.choice(["any", "any", "all"]), "a": gen_leaf(rng, "expr")}
+    if shape == "A":
+        return first
+    if shape == "and":
+        return rng.choice([{"t": "and", "a": first, "b": atom()}, {"t": "and", "a": gen_leaf(rng, "expr"), "b": first}])
+    if shape == "or":
+        return rng.choice([{"t": "or", "a": first, "b": atom()}, {"t": "or", "a": gen_leaf(rng, "expr"), "b": first}])
+    if shape == "andor":
+        return {"t": "or", "a": {"t": "and", "a": atom(), "b": first}, "b": atom()}
+    return {"t": "ite", "c": first, "a": atom(), "b": atom()}
+
+
+# ---------------------------------------------------------------- rule bodies
 
 
 def mult_amount(s):
     q = Fraction(s)
     dec = len(s.split(".")[1]) if "." in s else 0
     return {"q": "%d/%d" % (q.numerator, q.denominator), "prec": dec, "comm": ""}
-
-
-def gen_rule(rng, unbalanced=False):
-    syntax = rng.choice(["query", "query", "expr", "expr", "expr"])
-    pred = gen_pred(rng, rng.choice([0, 0, 1, 1, 2]), syntax)
-    lines = []
-    n = rng.randint(0, 4) if rng.random() < 0.1 else rng.randint(1, 4)
-    while len(lines) < n:
-        acct = rng.choice(RULE_ACCTS)
-        r = rng.random()
-        if r < 0.35:
-            # a single virtual posting: never needs to balance
-            lines.append({"account": acct, "kind": "virtual", "amount": rand_amount(rng)})
-        elif len(lines) + 2 <= n or r < 0.5:
-            # a balanced pair of must-balance postings
-            kind = rng.choice(["real", "bvirtual", "bvirtual"])
-            a = rand_amount(rng)
-            b = dict(a)
-            q = -jgen.amt_q(a)
-            b["q"] = "%d/%d" % (q.numerator, q.denominator)
-            lines.append({"account": acct, "kind": kind, "amount": a})
-            lines.append({"account": rng.choice(RULE_ACCTS), "kind": rng.choice([kind, "real", "bvirtual"]), "amount": b})
-        else:
-            lines.append({"account": acct, "kind": "virtual", "amount": rand_amount(rng)})
-    lines = lines[:4]
-    if unbalanced and lines:
-        k = rng.randrange(len(lines))
-        lines[k] = {"account": lines[k]["account"], "kind": rng.choice(["real", "bvirtual"]),
-                    "amount": mult_amount(rng.choice(["0.5", "1", "0.0001", "-0.25", "0.001"])) if rng.random() < 0.8
-                    else jgen.amt(Fraction(rng.randint(1, 500), 100), CM["$"])}
-    return {"pred": pred, "syntax": syntax, "lines": lines}
 
 
 def rand_amount(rng):
@@ -214,36 +298,168 @@ def rand_amount(rng):
     return jgen.amt(q, c, dec)
 
 
+def dec_text(q, dec):
+    ip, fp = jgen.dec_digits(q, dec)
+    return ("-" if q < 0 else "") + ip + ("." + fp if dec else "")
+
+
+def rand_expr(rng):
+    """an amount expression: (text, structured form for the oracle)."""
+    k = rng.choice(["mul", "mul", "negmul", "div", "const", "int", "addlit", "fixedlit", "mulsum"])
+    m = rng.choice(["0.1", "0.5", "2", "0.25", "1.5", "0.015", "1", "0"])
+    if k == "mul":
+        return "amount * %s" % m, ["mul", m]
+    if k == "negmul":
+        return "-amount * %s" % m, ["mul", "-" + m]
+    if k == "div":
+        n = rng.choice([2, 3, 4, 7, 10])
+        return "amount / %d" % n, ["div", n]
+    if k == "const":
+        return m, ["const", m]
+    if k == "int":
+        n = rng.choice([1, 2, 3, -1])
+        return "%d" % n, ["const", str(n)]
+    if k == "mulsum":
+        return "amount * %s + amount * %s" % (m, m), ["mul", str(Fraction(m) * 2)]
+    c = rng.choice([CM["EUR"], CM["AAA"]])
+    dec = c.dec + rng.choice([0, 0, 1])
+    q = Fraction(rng.randint(1, 900), 10 ** dec)
+    lit = "%s %s" % (dec_text(q, dec), c.name)
+    if k == "addlit":
+        return "amount + %s" % lit, ["addlit", qstr(q), c.name, dec]
+    return lit, ["fixed", qstr(q), c.name, dec]
+
+
+def rand_check(rng, failing_assert=False):
+    if failing_assert:
+        return {"t": "check", "kind": "assert", "expr": rng.choice(["amount > 1000000000", "amount < -1000000000", "amount > 5 & amount < 5"]),
+                "form": ["never"]}
+    kind = rng.choice(["check", "check", "assert", "expr"])
+    if kind == "assert":
+        # mostly true
+        n = rng.choice([-10 ** 9, -10 ** 10])
+        return {"t": "check", "kind": "assert", "expr": "amount > %d" % n, "form": ["cmp", "gt", n]}
+    op = rng.choice(["gt", "lt", "ge", "le"])
+    n = rng.choice([0, 5, 10, -10, 100, 1000])
+    return {"t": "check", "kind": kind, "expr": "amount %s %d" % ({"gt": ">", "lt": "<", "ge": ">=", "le": "<="}[op], n), "form": ["cmp", op, n]}
+
+
+def gen_rule(rng, unbalanced=False, rich=True, flat=False, failing_assert=False):
+    syntax = rng.choice(["query", "query", "expr", "expr", "expr"])
+    pred = gen_pred(rng, rng.choice([0, 0, 1, 1, 2]), syntax)
+    if flat:
+        syntax, pred = "flat", gen_flat_pred(rng)
+    lines = []
+    n = rng.randint(0, 4) if rng.random() < 0.1 else rng.randint(1, 4)
+    while len(lines) < n:
+        acct = rng.choice(RULE_ACCTS)
+        r = rng.random()
+        if r < 0.35 or not (len(lines) + 2 <= n or r < 0.5):
+            # a single virtual posting: never needs to balance
+            l = {"t": "post", "account": acct, "kind": "virtual", "amount": rand_amount(rng)}
+            if rich and rng.random() < 0.3:
+                l["amount"] = None
+                l["expr"], l["form"] = rand_expr(rng)
+            elif rich and rng.random() < 0.12 and l["amount"]["comm"]:
+                others = [c for c in COMMS if c.name != l["amount"]["comm"]]
+                cc = rng.choice(others)
+                l["cost"] = dict(jgen.amt(Fraction(rng.randint(1, 500), 10 ** cc.dec), cc), per_unit=rng.random() < 0.6)
+            lines.append(l)
+        else:
+            # a balanced pair of must-balance postings
+            kind = rng.choice(["real", "bvirtual", "bvirtual"])
+            a = rand_amount(rng)
+            b = dict(a)
+            b["q"] = qstr(-fq(a))
+            l1 = {"t": "post", "account": acct, "kind": kind, "amount": a}
+            l2 = {"t": "post", "account": rng.choice(RULE_ACCTS), "kind": rng.choice([kind, "real", "bvirtual"]), "amount": b}
+            if rich and a["comm"] == "" and rng.random() < 0.25:
+                m = dec_text(fq(a), a["prec"])
+                l1["amount"], l1["expr"], l1["form"] = None, "amount * %s" % m, ["mul", m]
+            if rich and a["comm"] and rng.random() < 0.15:
+                # a must-balance line with a cost, balanced by the total cost
+                others = [c for c in COMMS if c.name != a["comm"]]
+                cc = rng.choice(others)
+                pu = rng.random() < 0.6
+                cq = Fraction(rng.randint(1, 500), 10 ** cc.dec)
+                l1["cost"] = dict(jgen.amt(cq, cc), per_unit=pu)
+                tot = cq * fq(a) if pu else (cq if fq(a) >= 0 else -cq)
+                dec = cc.dec + (a["prec"] if pu else 0)
+                l2["amount"] = jgen.amt(-tot, cc, dec)
+            lines += [l1, l2]
+    lines = lines[:4]
+    if unbalanced and lines:
+        k = rng.randrange(len(lines))
+        lines[k] = {"t": "post", "account": lines[k]["account"], "kind": rng.choice(["real", "bvirtual"]),
+                    "amount": mult_amount(rng.choice(["0.5", "1", "0.0001", "-0.25", "0.001"])) if rng.random() < 0.8
+                    else jgen.amt(Fraction(rng.randint(1, 500), 100), CM["$"])}
+    body = []
+    if rich and rng.random() < 0.2:
+        body.append({"t": "note", "text": rng.choice(NOTE_WORDS)})
+    for l in lines:
+        if rich:
+            if rng.random() < 0.15:
+                l["state"] = rng.choice([1, 2])
+            if rng.random() < 0.12:
+                l["note"] = rng.choice(NOTE_WORDS)
+        body.append(l)
+        if rich and rng.random() < 0.12:
+            body.append({"t": "note", "text": rng.choice(NOTE_WORDS)})
+        if rich and rng.random() < 0.1:
+            body.append(rand_check(rng))
+    if failing_assert:
+        body.insert(rng.randint(0, len(body)), rand_check(rng, failing_assert=True))
+    return norm_rule({"pred": pred, "syntax": syntax, "body": body})
+
+
 def rule_header(r):
     if r["syntax"] == "query":
         return "= " + pred_query(r["pred"])
+    if r["syntax"] == "flat":
+        return "= expr " + pred_flat(r["pred"])
     return "= expr " + pred_expr(r["pred"])
 
 
-def render_rule_line(l):
+def render_body_entry(l):
+    if l["t"] == "note":
+        return "    ; " + l["text"]
+    if l["t"] == "check":
+        return "    %s %s" % (l["kind"], l["expr"])
     acct = l["account"]
     if l["kind"] == "virtual":
         acct = "(" + acct + ")"
     elif l["kind"] == "bvirtual":
         acct = "[" + acct + "]"
-    a = l["amount"]
-    if a["comm"] == "":
-        q = jgen.amt_q(a)
-        ip, fp = jgen.dec_digits(q, a["prec"])
-        txt = ("-" if q < 0 else "") + ip + ("." + fp if a["prec"] else "")
+    st = {0: "", 1: "* ", 2: "! "}[l.get("state", 0)]
+    if l.get("expr") is not None:
+        txt = "(" + l["expr"] + ")"
     else:
-        txt = jgen.render_amount(a, COMMS)
-    return "    " + acct + "  " + txt
+        a = l["amount"]
+        txt = dec_text(fq(a), a["prec"]) if a["comm"] == "" else jgen.render_amount(a, COMMS)
+    s = "    " + st + acct + "  " + txt
+    if l.get("cost"):
+        s += (" @ " if l["cost"]["per_unit"] else " @@ ") + jgen.render_amount(l["cost"], COMMS)
+    if l.get("note"):
+        s += "  ; " + l["note"]
+    return s
+
+
+def render_xact_lines(x):
+    if "raw_posts" in x:
+        y = dict(x, posts=[])
+        return jgen.render_xact(y, COMMS) + list(x["raw_posts"])
+    return jgen.render_xact(x, COMMS)
 
 
 def render(j, with_rules=True):
     """journal text in `items` order; fills line numbers.  with_rules=False
     turns every rule line into a comment line (same line numbers)."""
+    norm_journal(j)
     out = []
     for it in j["items"]:
         if it["k"] == "x":
             x = j["xacts"][it["i"]]
-            lines = jgen.render_xact(x, COMMS)
+            lines = render_xact_lines(x)
             x["line"] = len(out) + 1
             for k, p in enumerate(x["posts"]):
                 p["line"] = len(out) + 2 + k
@@ -253,9 +469,9 @@ def render(j, with_rules=True):
             r = j["rules"][it["i"]]
             r["line"] = len(out) + 1
             lines = [r.get("raw_header") or rule_header(r)]
-            for k, l in enumerate(r["lines"]):
+            for k, l in enumerate(r["body"]):
                 l["line"] = len(out) + 2 + k
-                lines.append(render_rule_line(l))
+                lines.append(render_body_entry(l))
             r["end_line"] = len(out) + len(lines)
             if not with_rules:
                 lines = ["; " + s.strip() for s in lines]
@@ -264,18 +480,46 @@ def render(j, with_rules=True):
     return "\n".join(out) + "\n"
 
 
-def gen_journal(rng, nx=None, nr=None, p_bad_rule=0.10, p_bad_xact=0.004, big=False):
-    g = jgen.Gen(rng, comms=COMMS, p_cost=0.0, magnitudes=[10, 10, 1000, 10 ** 6] if big else [10, 100, 1000])
+def lot_xact(rng, day):
+    """a transaction whose postings carry an explicit lot price {…} (no cost)."""
+    c = rng.choice([CM["AAA"], CM["EUR"]])
+    pc = CM["$"]
+    price = Fraction(rng.randint(1, 999), 100)
+    q = Fraction(rng.randint(1, 50 * 10 ** c.dec), 10 ** c.dec)
+    comm = "%s{%s:%s}[]" % (c.name, qstr(price), pc.name)
+    lot_txt = " {%s}" % jgen.fmt_amount(price, pc, 2)
+    a1, a2 = rng.sample(["Assets:Stock", "Assets:Stock:Old", "Expenses:Food", "Assets:Cash", "Income:Salary"], 2)
+    elide = rng.random() < 0.4
+    posts = [{"account": a1, "kind": "real", "state": 0, "amount": {"q": qstr(q), "prec": c.dec, "comm": comm}, "cost": None, "assert": None, "note": ""},
+             {"account": a2, "kind": "real", "state": 0, "amount": None if elide else {"q": qstr(-q), "prec": c.dec, "comm": comm},
+              "cost": None, "assert": None, "note": ""}]
+    raw = ["    %s  %s%s" % (a1, jgen.fmt_amount(q, c), lot_txt),
+           "    %s" % a2 if elide else "    %s  %s%s" % (a2, jgen.fmt_amount(-q, c), lot_txt)]
+    return {"date": day, "aux": None, "state": rng.choice([0, 0, 1, 2]), "code": "", "payee": "payee %d" % rng.randint(1, 12), "note": "",
+            "posts": posts, "raw_posts": raw}
+
+
+def gen_journal(rng, nx=None, nr=None, p_bad_rule=0.10, p_bad_xact=0.004, big=False, p_cost=0.12, rich=True,
+                p_flat=0.08, p_failing_assert=0.04, p_lot=0.05):
+    g = jgen.Gen(rng, comms=COMMS, p_cost=p_cost, p_note=0.15, magnitudes=[10, 10, 1000, 10 ** 6] if big else [10, 100, 1000])
     nx = nx if nx is not None else rng.choice([1, 2, 3, 4, 5, 6, 8, 12, 20, 30])
     nr = nr if nr is not None else rng.choice([0, 1, 1, 2, 2, 3, 4])
     xs = []
     for _ in range(nx):
-        if rng.random() < p_bad_xact:
+        if rng.random() < p_lot:
+            xs.append(lot_xact(rng, g.kw["start"] + rng.randint(0, 700)))
+        elif rng.random() < p_bad_xact:
             xs.append(g.xact(balanced=False))
         else:
-            xs.append(g.xact())
+            x = g.xact()
+            if rich:
+                for p in x["posts"]:
+                    if rng.random() < 0.06:
+                        p["note"] = rng.choice(NOTE_WORDS)
+            xs.append(x)
     bad = rng.random() < p_bad_rule
-    rules = [gen_rule(rng, unbalanced=(bad and k == 0)) for k in range(nr)]
+    rules = [gen_rule(rng, unbalanced=(bad and k == 0), rich=rich, flat=rng.random() < p_flat,
+                      failing_assert=rng.random() < p_failing_assert) for k in range(nr)]
     rng.shuffle(rules)
     # positions: rules before / between / after the transactions
     slots = sorted(rng.choice([0, 0, nx, rng.randint(0, nx), rng.randint(0, nx)]) for _ in range(nr))
@@ -292,11 +536,21 @@ def gen_journal(rng, nx=None, nr=None, p_bad_rule=0.10, p_bad_xact=0.004, big=Fa
 
 def ast_for_model(j):
     """the JSON handed to the driver (rules without the generator's bookkeeping keys)."""
-    return {"xacts": j["xacts"],
-            "rules": [{"pred": r["pred"], "line": r["line"],
-                       "lines": [{"account": l["account"], "kind": l["kind"], "amount": l["amount"], "line": l["line"]}
-                                 for l in r["lines"]]} for r in j["rules"]],
-            "items": j["items"]}
+    norm_journal(j)
+    rules = []
+    for r in j["rules"]:
+        body = []
+        for e in r["body"]:
+            if e["t"] == "post":
+                body.append({"t": "post", "account": e["account"], "kind": e["kind"], "state": e.get("state", 0), "amount": e.get("amount"),
+                             "expr": e.get("expr"), "cost": e.get("cost"), "note": e.get("note", ""), "line": e["line"]})
+            elif e["t"] == "note":
+                body.append({"t": "note", "text": e["text"]})
+            else:
+                body.append({"t": "check", "kind": e["kind"], "expr": e["expr"]})
+        rules.append({"pred": r["pred"], "line": r["line"], "body": body})
+    xs = [{k: v for k, v in x.items() if k != "raw_posts"} for x in j["xacts"]]
+    return {"xacts": xs, "rules": rules, "items": j["items"]}
 
 
 # ---------------------------------------------------------------- running ledger
@@ -314,16 +568,46 @@ def run_ledger(text):
         shutil.rmtree(d, ignore_errors=True)
 
 
-def parse_rows(out):
+AMT_RE = re.compile(r"A:(-?\d+)/(\d+):(\d+):([01]):(.*)", re.S)
+
+
+def parse_amt(s):
+    m = AMT_RE.fullmatch(s)
+    if not m:
+        return None
+    return Fraction(int(m.group(1)), int(m.group(2))), int(m.group(3)), m.group(4), m.group(5)
+
+
+def canon_comm(comm_text, lot_price, lot_date):
+    """ledger prints a lot commodity as `AAA {$2.00} [2020/01/02]`; canonical: AAA{2/1:$}[day]."""
+    if " {" not in comm_text and " [" not in comm_text:
+        return comm_text
+    base = re.split(r" [\{\[\(]", comm_text)[0]
+    pa = parse_amt(lot_price)
+    if pa is None:
+        return None
+    day = ""
+    if lot_date:
+        y, mo, d = [int(t) for t in lot_date.split("/")]
+        day = str((datetime.date(y, mo, d) - EPOCH).days)
+    return "%s{%s:%s}[%s]" % (base, qstr(pa[0]), pa[3], day)
+
+
+def parse_rows(out, j=None):
     """reg output -> list of dict rows (file/transaction order as printed)."""
+    xnote = {}
+    if j is not None:
+        for x in j["xacts"]:
+            if x.get("note") and "line" in x:
+                xnote[x["line"]] = " " + x["note"]
     rows = []
-    for ln in out.split("\n"):
-        if not ln:
+    for rec in out.split("|\n"):
+        if not rec:
             continue
-        f = ln.split("|")
-        if len(f) != 8:
+        f = rec.split("|", 14)
+        if len(f) != 15:
             return None
-        xl, pl, acct, dacct, amt, virt, actual, calc = f
+        xl, pl, acct, dacct, amt, lotp, lotd, hascost, cost, cleared, pending, virt, actual, calc, note = f
         if dacct.startswith("(") and dacct.endswith(")"):
             kind = "virtual"
         elif dacct.startswith("[") and dacct.endswith("]"):
@@ -332,37 +616,71 @@ def parse_rows(out):
             kind = "real"
         if (kind != "real") != (virt == "true"):
             return None
-        m = re.fullmatch(r"A:(-?\d+)/(\d+):(\d+):([01]):(.*)", amt)
-        if not m:
+        a = parse_amt(amt)
+        if a is None:
             return None
-        rows.append({"xl": int(xl), "pl": int(pl), "account": acct, "kind": kind,
-                     "q": Fraction(int(m.group(1)), int(m.group(2))), "prec": int(m.group(3)), "keep": m.group(4),
-                     "comm": m.group(5), "gen": actual != "true", "calc": calc == "true"})
+        comm = canon_comm(a[3], lotp, lotd)
+        if comm is None:
+            return None
+        c = None
+        if hascost == "true":
+            ca = parse_amt(cost)
+            if ca is None:
+                return None
+            c = {"q": ca[0], "prec": ca[1], "keep": ca[2], "comm": ca[3]}
+        xn = xnote.get(int(xl), "")
+        if xn and note.endswith(xn):
+            note = note[:-len(xn)]
+        rows.append({"xl": int(xl), "pl": int(pl), "account": acct, "kind": kind, "state": 1 if cleared == "true" else 2 if pending == "true" else 0,
+                     "q": a[0], "prec": a[1], "keep": a[2], "comm": comm, "cost": c, "note": note,
+                     "gen": actual != "true", "calc": calc == "true"})
     return rows
 
 
 def canon_rows(rows):
-    return ";".join("%d|%d|%s|%s|%d/%d:%d:%s:%s|%d|%d" % (r["xl"], r["pl"], r["account"], r["kind"], r["q"].numerator,
-                                                        r["q"].denominator, r["prec"], r["keep"], r["comm"],
-                                                        1 if r["gen"] else 0, 1 if r["calc"] else 0) for r in rows)
+    out = []
+    for r in rows:
+        c = "-" if r["cost"] is None else "%s:%d:%s:%s" % (qstr(r["cost"]["q"]), r["cost"]["prec"], r["cost"]["keep"], r["cost"]["comm"])
+        out.append("%d|%d|%s|%s|%d|%s:%d:%s:%s|%s|%s|%d|%d" % (r["xl"], r["pl"], r["account"], r["kind"], r["state"], qstr(r["q"]), r["prec"],
+                                                             r["keep"], r["comm"], c, r["note"], 1 if r["gen"] else 0, 1 if r["calc"] else 0))
+    return ";".join(out)
+
+
+def err_kind16(t):
+    if "Transaction does not balance" in t:
+        return "unbalanced"
+    if "Transaction assertion failed" in t:
+        return "assert-failed"
+    if "cost must be of a different commodity" in t:
+        return "same-comm-cost"
+    if "Amount expressions must result in a simple amount" in t:
+        return "expr-error"
+    if "Only one posting with null amount allowed" in t:
+        return "two-nulls"
+    if "Error:" in t:
+        return "other"
+    return "none"
+
+
+def xact_at(j, ln):
+    for it in j["items"]:
+        if it["k"] == "x":
+            x = j["xacts"][it["i"]]
+            if x["line"] <= ln <= x["end_line"]:
+                return x["line"]
+    return 0
 
 
 def parse_errors(err, j):
-    """stderr -> sorted list of (xact line, rule line or 0, kind)."""
+    """stderr -> list of (xact line, rule line or 0, kind)."""
     res = []
     blocks = re.split(r"(?m)^(?=While parsing file )", err)
     for b in blocks:
         if not b.startswith("While parsing file"):
             continue
-        kind = vflib.err_kind(b) or "none"
+        kind = err_kind16(b)
         m = re.match(r'While parsing file "[^"]*", line (\d+):', b)
-        ln = int(m.group(1)) if m else 0
-        xl = 0
-        for it in j["items"]:
-            if it["k"] == "x":
-                x = j["xacts"][it["i"]]
-                if x["line"] <= ln <= x["end_line"]:
-                    xl = x["line"]
+        xl = xact_at(j, int(m.group(1))) if m else 0
         m = re.search(r'While extending transaction from "[^"]*", lines? (\d+)', b)
         if m:
             xl = int(m.group(1))
@@ -372,79 +690,173 @@ def parse_errors(err, j):
     return res
 
 
+def parse_warnings(err, j):
+    """{xact line: number of 'Transaction check failed' warnings}"""
+    w = {}
+    for m in re.finditer(r'(?m)^Warning: "[^"]*", line (\d+): Transaction check failed', err):
+        xl = xact_at(j, int(m.group(1)))
+        w[xl] = w.get(xl, 0) + 1
+    return w
+
+
 # ---------------------------------------------------------------- the oracle (independent of the Lean model)
 
 
-def subst_account(tmpl, matched):
-    return tmpl.replace("$account", matched)
+def subst_account(tmpl, matched, payee):
+    if "$account" in tmpl:
+        return tmpl.replace("$account", matched)
+    if "%(" in tmpl:
+        return tmpl.replace("%(account)", matched).replace("%(payee)", payee)
+    return tmpl
+
+
+def base_of(comm):
+    return comm.split("{")[0]
 
 
 def prec_so_far(j, upto_line):
-    """decimals written so far per commodity (amounts on lines <= upto_line)."""
+    """decimals written so far per commodity (amounts on lines <= upto_line; costs and lot prices do not count)."""
     p = {}
+
+    def bump(c, d):
+        c = base_of(c)
+        p[c] = max(p.get(c, 0), d)
     for it in j["items"]:
         if it["k"] == "x":
             x = j["xacts"][it["i"]]
             for po in x["posts"]:
                 if po["amount"] is not None and po["line"] <= upto_line:
-                    c = po["amount"]["comm"]
-                    p[c] = max(p.get(c, 0), po["amount"]["prec"])
+                    bump(po["amount"]["comm"], po["amount"]["prec"])
         else:
             r = j["rules"][it["i"]]
-            for l in r["lines"]:
-                if l["amount"]["comm"] and l["line"] <= upto_line:
-                    c = l["amount"]["comm"]
-                    p[c] = max(p.get(c, 0), l["amount"]["prec"])
+            for l in r["body"]:
+                if l["line"] > upto_line:
+                    continue
+                if l["t"] == "post" and l.get("amount") and l["amount"]["comm"]:
+                    bump(l["amount"]["comm"], l["amount"]["prec"])
+                if l["t"] == "post" and l.get("form") and l["form"][0] in ("addlit", "fixed"):
+                    bump(l["form"][2], l["form"][3])
     return p
 
 
-def expected_extension(j, x, base_rows):
-    """(rows expected after the base rows, verdict about balance)
-    verdict: 'ok' (every rule leaves an exactly zero must-balance residual),
-             ('err', rule line) (some rule leaves a residual of at least one display unit),
-             'undetermined'."""
-    exp = []
-    verdict = "ok"
-    resid = {}
+class Und(Exception):
+    pass
+
+
+def line_amount(l, b):
+    """(q, comm) of the posting rule line l generates for matched row b, or 'expr-error'."""
+    if l.get("expr") is None:
+        a = l["amount"]
+        return (b["q"] * fq(a), b["comm"]) if a["comm"] == "" else (fq(a), a["comm"])
+    f = l["form"]
+    if f[0] == "mul":
+        return b["q"] * Fraction(f[1]), b["comm"]
+    if f[0] == "div":
+        return b["q"] / f[1], b["comm"]
+    if f[0] == "const":
+        return b["q"] * Fraction(f[1]), b["comm"]
+    if f[0] == "fixed":
+        return Fraction(f[1]), f[2]
+    if f[0] == "addlit":
+        if b["comm"] == f[2]:
+            return b["q"] + Fraction(f[1]), b["comm"]
+        if b["q"] == 0:
+            raise Und()
+        return "expr-error"
+    raise ValueError(f)
+
+
+def line_cost(l):
+    c = l.get("cost")
+    if not c:
+        return None
+    cq, aq = fq(c), fq(l["amount"])
+    tot = cq * aq if c["per_unit"] else (cq if aq >= 0 else -cq)
+    return {"q": tot, "comm": c["comm"]}
+
+
+def check_true(form, b):
+    if form[0] == "never":
+        return False
+    _, op, n = form
+    return {"gt": b["q"] > n, "lt": b["q"] < n, "ge": b["q"] >= n, "le": b["q"] <= n}[op]
+
+
+def simulate(j, x, base_rows):
+    """The property restated on ledger's own rows of the run without rules.
+    Returns (rows expected, verdict, warnings expected); verdict: 'ok' | ('err', rule line, kind) | 'undetermined'."""
+    live = [dict(r) for r in base_rows]
     prec = prec_so_far(j, x["end_line"])
+    warns = 0
+    undet = False
     for it in j["items"]:
         if it["k"] != "r":
             continue
         r = j["rules"][it["i"]]
         if r["line"] > x["line"]:
             continue
+        posts = posts_of(r)
+        snapshot = list(live)
         added_mb = False
-        for b in base_rows:
+        for b in snapshot:
             if b["gen"]:
                 continue
-            if not pred_eval(r["pred"], b["account"], x["payee"], b["q"]):
+            if not pred_eval(r["pred"], b, x["payee"], live):
                 continue
-            for l in r["lines"]:
-                a = l["amount"]
-                if a["comm"] == "":
-                    q, comm = b["q"] * jgen.amt_q(a), b["comm"]
-                else:
-                    q, comm = jgen.amt_q(a), a["comm"]
-                exp.append({"xl": x["line"], "pl": l["line"], "account": subst_account(l["account"], b["account"]),
-                            "kind": l["kind"], "q": q, "comm": comm, "gen": True, "calc": False,
-                            "from": b["pl"], "rule": r["line"]})
+            for t in notes_for(r, None):
+                b["note"] = (b["note"] + "\\n" + t) if b["note"] else t
+            for e in r["body"]:
+                if e["t"] != "check":
+                    continue
+                ok = check_true(e["form"], b)
+                if e["kind"] == "assert" and not ok:
+                    return live, ("err", r["line"], "assert-failed"), warns
+                if e["kind"] == "check" and not ok:
+                    warns += 1
+            for i, l in enumerate(posts):
+                try:
+                    am = line_amount(l, b)
+                except Und:
+                    return live, "skip", warns
+                if am == "expr-error":
+                    return live, ("err", r["line"], "expr-error"), warns
+                note = (" " + l["note"]) if l.get("note") else ""
+                for t in notes_for(r, i):
+                    note = (note + "\\n" + t) if note else t
+                row = {"xl": x["line"], "pl": l["line"], "account": subst_account(l["account"], b["account"], x["payee"]),
+                       "kind": l["kind"], "state": 1 if x["state"] == 1 else l.get("state", 0), "q": am[0], "comm": am[1],
+                       "cost": line_cost(l), "note": note, "gen": True, "calc": False, "from": b["pl"], "rule": r["line"]}
+                live.append(row)
                 if l["kind"] != "virtual":
                     added_mb = True
-                    resid[comm] = resid.get(comm, 0) + q
-        if added_mb and verdict == "ok":
+        if added_mb:
+            # verify(): cost in the amount's own commodity, then the residual over every must-balance posting
+            for p in live:
+                if p["cost"] is not None and p["cost"]["comm"] == p["comm"]:
+                    return live, ("err", r["line"], "same-comm-cost"), warns
+            resid = {}
+            for p in live:
+                if p["kind"] == "virtual":
+                    continue
+                q, c = (p["cost"]["q"], p["cost"]["comm"]) if p["cost"] is not None else (p["q"], p["comm"])
+                resid[c] = resid.get(c, 0) + q
             for c, q in resid.items():
                 if q == 0:
                     continue
-                unit = Fraction(1, 10 ** prec.get(c, 0)) if c else Fraction(0)
+                unit = Fraction(1, 10 ** prec.get(base_of(c), 0)) if c else Fraction(0)
                 if abs(q) >= unit:
-                    verdict = ("err", r["line"])
-                    break
-                verdict = "undetermined"
-    return exp, verdict
+                    return live, ("err", r["line"], "unbalanced"), warns
+                undet = True      # a residual below one display unit: whether ledger rejects is the tolerance's business (C01)
+    return live, ("undetermined" if undet else "ok"), warns
 
 
 def row_key(r):
-    return (r["pl"], r["account"], r["kind"], r["q"], r["comm"], r["gen"])
+    c = None if r["cost"] is None else (r["cost"]["q"], r["cost"]["comm"])
+    return (r["pl"], r["account"], r["kind"], r["state"], r["q"], r["comm"], c, r["note"], r["gen"])
+
+
+FIELD_FP = [("pl", "order"), ("account", "account"), ("kind", "kind"), ("state", "state"), ("comm", "commodity"), ("q", "amount"),
+            ("cost", "cost"), ("note", "note"), ("gen", "generated-flag")]
 
 
 def oracle(j, with_res, base_res):
@@ -455,9 +867,9 @@ def oracle(j, with_res, base_res):
     if brc != 0:
         # the transactions alone do not load (malformed stream): with rules it must fail too
         if rc == 0:
-            return ("C16:base-error-vanishes", "the file without rules is rejected (%s) but accepted with rules" % (vflib.err_kind(berr),))
+            return ("C16:base-error-vanishes", "the file without rules is rejected (%s) but accepted with rules" % (err_kind16(berr),))
         return None
-    base = parse_rows(bout)
+    base = parse_rows(bout, j)
     if base is None:
         return ("C16:observe", "cannot parse base rows")
     by_x = {}
@@ -469,32 +881,31 @@ def oracle(j, with_res, base_res):
     exp_all = []
     for x in xs:
         b = by_x.get(x["line"], [])
-        exp, verdict = expected_extension(j, x, b)
-        if verdict == "undetermined":
+        exp, verdict, warns = simulate(j, x, b)
+        if verdict in ("undetermined", "skip"):
             undetermined = True
         elif verdict != "ok":
-            want_err.append((x["line"], verdict[1]))
-        exp_all.append((x, b, exp, verdict))
+            want_err.append((x["line"], verdict[1], verdict[2]))
+        exp_all.append((x, b, exp, verdict, warns))
     if rc != 0:
         got = parse_errors(err, j)
-        if any(k != "unbalanced" for _, _, k in got):
+        if any(k in ("other", "none", "two-nulls") for _, _, k in got):
             return ("C16:other-error", "ledger reports %s for a journal of the fragment" % (got,))
-        got_set = sorted((a, b) for a, b, _ in got)
+        got_set = sorted(got)
         if not undetermined and got_set != sorted(want_err):
             miss = [e for e in want_err if e not in got_set]
             extra = [e for e in got_set if e not in want_err]
             if extra:
-                return ("C16:spurious-unbalanced-error", "ledger rejects (xact line, rule line) %s although the rule's must-balance postings cancel exactly" % (extra,))
-            return ("C16:missing-unbalanced-error", "ledger does not reject (xact line, rule line) %s" % (miss,))
+                return ("C16:spurious-error:" + extra[0][2], "ledger rejects (xact line, rule line, kind) %s although the restated property accepts" % (extra,))
+            return ("C16:missing-error:" + miss[0][2], "ledger does not reject (xact line, rule line, kind) %s" % (miss,))
         for e in want_err:
             if e not in got_set:
-                return ("C16:missing-unbalanced-error", "ledger does not reject (xact line, rule line) %s" % (e,))
+                return ("C16:missing-error:" + e[2], "ledger does not reject (xact line, rule line, kind) %s" % (e,))
         return None
     if want_err:
-        return ("C16:unbalanced-extension-accepted",
-                "transaction(s) at line(s) %s are extended by a rule whose must-balance postings leave a residual of at least one display unit, yet ledger reports no error"
-                % ([e[0] for e in want_err],))
-    rows = parse_rows(out)
+        return ("C16:accepted:" + want_err[0][2],
+                "transaction(s) at line(s) %s must be rejected (%s) yet ledger reports no error" % ([e[0] for e in want_err], want_err[0][2]))
+    rows = parse_rows(out, j)
     if rows is None:
         return ("C16:observe", "cannot parse rows")
     got_x = {}
@@ -504,19 +915,29 @@ def oracle(j, with_res, base_res):
     for xl in got_x:
         if xl not in known:
             return ("C16:observe", "row for unknown transaction line %d" % xl)
-    for x, b, exp, verdict in exp_all:
+    gw = parse_warnings(err, j)
+    first_rule = min([j["rules"][it["i"]]["line"] for it in j["items"] if it["k"] == "r"] or [10 ** 9])
+    for x, b, exp, verdict, warns in exp_all:
         got = got_x.get(x["line"], [])
-        first_rule = min([j["rules"][it["i"]]["line"] for it in j["items"] if it["k"] == "r"] or [10 ** 9])
-        # 1. the original postings are an unchanged prefix
-        pre = got[:len(b)]
-        if [row_key(r) + (r["calc"],) for r in pre] != [row_key(r) + (r["calc"],) for r in b]:
+        nb = len(b)
+        if verdict == "skip":
+            continue
+        if verdict == "ok" and gw.get(x["line"], 0) != warns:
+            return ("C16:check-warnings", "transaction at line %d: %d 'Transaction check failed' warnings, %d expected" % (x["line"], gw.get(x["line"], 0), warns))
+        # 1. the original postings stay in place; only a matched posting's note may grow
+        pre = got[:nb]
+        if [row_key(r) + (r["calc"],) for r in pre] != [row_key(r) + (r["calc"],) for r in exp[:nb]]:
             if x["line"] < first_rule:
                 return ("C16:earlier-transaction-touched", "transaction at line %d precedes every rule but differs from the run without rules" % x["line"])
-            return ("C16:original-posting-changed", "transaction at line %d: original postings are not an unchanged prefix" % x["line"])
-        ext = got[len(b):]
+            for e, g in zip(exp[:nb], pre):
+                if row_key(e) != row_key(g) and row_key(dict(e, note="")) == row_key(dict(g, note="")):
+                    return ("C16:original-note", "transaction at line %d, posting line %d: note %r, expected %r" % (x["line"], e["pl"], g["note"], e["note"]))
+            return ("C16:original-posting-changed", "transaction at line %d: original postings are not kept in place unchanged" % x["line"])
+        ext = got[nb:]
+        exq = exp[nb:]
         if x["line"] < first_rule and ext:
             return ("C16:earlier-transaction-touched", "transaction at line %d precedes every rule but gained %d postings" % (x["line"], len(ext)))
-        ek = [row_key(r) for r in exp]
+        ek = [row_key(r) for r in exq]
         gk = [row_key(r) for r in ext]
         if ek == gk:
             continue
@@ -527,25 +948,25 @@ def oracle(j, with_res, base_res):
         if any(not r["gen"] for r in ext):
             return ("C16:generated-flag", "transaction at line %d: an added posting is not flagged generated" % x["line"])
         if len(gk) > len(ek):
-            # did a rule fire on a generated posting?
             return ("C16:extra-generated-posting", "transaction at line %d: %d postings added, %d expected (a rule fired on a generated or non-matching posting?)"
                     % (x["line"], len(gk), len(ek)))
         if len(gk) < len(ek):
             return ("C16:missing-generated-posting", "transaction at line %d: %d postings added, %d expected" % (x["line"], len(gk), len(ek)))
-        for e, g in zip(exp, ext):
+        for e, g in zip(exq, ext):
             if row_key(e) == row_key(g):
                 continue
-            if e["pl"] != g["pl"]:
-                return ("C16:order", "transaction at line %d: generated postings out of order (rule line %d expected, %d found)" % (x["line"], e["pl"], g["pl"]))
-            if e["account"] != g["account"]:
-                return ("C16:account", "transaction at line %d, rule line %d: account %r, expected %r" % (x["line"], e["pl"], g["account"], e["account"]))
-            if e["kind"] != g["kind"]:
-                return ("C16:kind", "transaction at line %d, rule line %d: kind %s, expected %s" % (x["line"], e["pl"], g["kind"], e["kind"]))
-            if e["comm"] != g["comm"]:
-                return ("C16:commodity", "transaction at line %d, rule line %d: commodity %r, expected %r" % (x["line"], e["pl"], g["comm"], e["comm"]))
-            a = [l for r in j["rules"] for l in r["lines"] if l["line"] == e["pl"]][0]["amount"]
-            return ("C16:amount:" + ("multiplier" if a["comm"] == "" else "fixed"),
-                    "transaction at line %d, rule line %d applied to posting line %d: amount %s, expected %s" % (x["line"], e["pl"], e["from"], g["q"], e["q"]))
+            for fld, name in FIELD_FP:
+                ev, gv = e[fld], g[fld]
+                if fld == "cost":
+                    ev = None if ev is None else (ev["q"], ev["comm"])
+                    gv = None if gv is None else (gv["q"], gv["comm"])
+                if ev != gv:
+                    l = [l for r in j["rules"] for l in r["body"] if l["line"] == e["pl"]]
+                    sub = ""
+                    if name == "amount" and l:
+                        sub = ":expr" if l[0].get("expr") is not None else ":multiplier" if l[0]["amount"]["comm"] == "" else ":fixed"
+                    return ("C16:" + name + sub, "transaction at line %d, rule line %d applied to posting line %d: %s %s, expected %s"
+                            % (x["line"], e["pl"], e["from"], name, gv, ev))
     return None
 
 
@@ -569,14 +990,15 @@ def impl_canon(j, w):
         if not errs:
             return "err\tnone"
         return "err\t" + ";".join("%d:%d:%s" % e for e in errs)
-    rows = parse_rows(out)
+    rows = parse_rows(out, j)
     if rows is None:
         return "unparsed"
-    return "ok\t" + canon_rows(rows)
+    gw = parse_warnings(err, j)
+    return "ok\t" + canon_rows(rows) + "\t" + ";".join("%d:%d" % (k, gw[k]) for k in sorted(gw))
 
 
 def shrink(j, fp):
-    """greedy delta-debugging over items, rule lines and postings of rules; keeps the fingerprint."""
+    """greedy delta-debugging over items and rule body entries; keeps the fingerprint."""
     def failing(c):
         try:
             text, w, b = eval_case(c)
@@ -599,9 +1021,10 @@ def shrink(j, fp):
                 cur = c
                 changed = True
         for ri, r in enumerate(cur["rules"]):
-            for k in range(len(r["lines"]) - 1, -1, -1):
+            for k in range(len(r["body"]) - 1, -1, -1):
                 c = copy.deepcopy(cur)
-                del c["rules"][ri]["lines"][k]
+                del c["rules"][ri]["body"][k]
+                norm_rule(c["rules"][ri])
                 budget -= 1
                 if budget <= 0:
                     break
@@ -633,13 +1056,36 @@ def features_of(ctx, j, w):
             for k in pred_kinds(r["pred"]):
                 ctx.feature("pred:" + k)
             ctx.feature("pred-quick-only" if quick_only(r["pred"]) else "pred-falls-back-to-general")
-            ctx.feature("lines:%d" % len(r["lines"]))
-            for l in r["lines"]:
-                ctx.feature("line:" + l["kind"])
-                ctx.feature("line:multiplier" if l["amount"]["comm"] == "" else "line:fixed")
-                if "$account" in l["account"]:
-                    ctx.feature("line:$account")
+            ctx.feature("lines:%d" % len(posts_of(r)))
+            for l in r["body"]:
+                if l["t"] == "note":
+                    ctx.feature("rule:note-line")
+                elif l["t"] == "check":
+                    ctx.feature("rule:" + l["kind"] + "-line")
+                else:
+                    ctx.feature("line:" + l["kind"])
+                    ctx.feature("line:expr" if l.get("expr") is not None else "line:multiplier" if l["amount"]["comm"] == "" else "line:fixed")
+                    if "$account" in l["account"]:
+                        ctx.feature("line:$account")
+                    if "%(" in l["account"]:
+                        ctx.feature("line:%()account")
+                    if l.get("cost"):
+                        ctx.feature("line:cost")
+                    if l.get("state"):
+                        ctx.feature("line:state")
+                    if l.get("note"):
+                        ctx.feature("line:inline-note")
+    for x in j["xacts"]:
+        if x["state"]:
+            ctx.feature("xact:state-%d" % x["state"])
+        if "raw_posts" in x:
+            ctx.feature("xact:explicit-lot")
+        if any(p.get("cost") for p in x["posts"]):
+            ctx.feature("xact:cost")
     ctx.feature("impl:ok" if rc == 0 else "impl:error")
+    if rc != 0:
+        for e in parse_errors(w[2], j):
+            ctx.feature("impl-error:" + e[2])
 
 
 def process(ctx, cases, label):
@@ -652,11 +1098,15 @@ def process(ctx, cases, label):
         impl = impl_canon(j, w)
         gen_rows = 0
         if w[0] == 0:
-            rows = parse_rows(w[1]) or []
+            rows = parse_rows(w[1], j) or []
             gen_rows = sum(1 for r in rows if r["gen"] and not r["calc"])
             ctx.feature("generated-rows", gen_rows)
             if any(r["gen"] and r["calc"] for r in rows):
                 ctx.feature("finalize-generated-balancing-post")
+            if any(r["gen"] and not r["calc"] and "{" in r["comm"] for r in rows):
+                ctx.feature("generated-from-lot")
+            if parse_warnings(w[2], j):
+                ctx.feature("check-warning")
         if m == "err\tunsupported":
             ctx.feature("model:unsupported")
         elif impl != m:
@@ -862,40 +1312,148 @@ def boundary_cases():
     return [copy.deepcopy(c) for c in cs]
 
 
-def cost_cases(rng, n):
-    """oracle-only stream (outside the Lean model): matched postings carrying costs."""
+def P(acct, kind="virtual", amount=None, expr=None, form=None, cost=None, state=0, note=""):
+    e = {"t": "post", "account": acct, "kind": kind, "amount": amount, "expr": expr, "cost": cost, "state": state, "note": note}
+    if form is not None:
+        e["form"] = form
+    return e
+
+
+def N(text):
+    return {"t": "note", "text": text}
+
+
+def CK(kind, op, n):
+    return {"t": "check", "kind": kind, "expr": "amount %s %d" % ({"gt": ">", "lt": "<", "ge": ">=", "le": "<="}[op], n), "form": ["cmp", op, n]}
+
+
+def cost_xact(day, payee, acct, q, c, cq, cc, per_unit, other="Assets:Cash", elide=True, state=0):
+    """`acct  q c @|@@ cq cc` balanced by `other` (elided or explicit)."""
+    ndec = lambda t: len(t.split(".")[1]) if "." in t else 0
+    a = jgen.amt(Fraction(q), CM[c], ndec(q))
+    cost = dict(jgen.amt(Fraction(cq), CM[cc], ndec(cq)), per_unit=per_unit)
+    tot = Fraction(cq) * Fraction(q) if per_unit else (Fraction(cq) if Fraction(q) >= 0 else -Fraction(cq))
+    dec = ndec(cq) + (ndec(q) if per_unit else 0)
+    posts = [{"account": acct, "kind": "real", "state": 0, "amount": a, "cost": cost, "assert": None, "note": ""},
+             {"account": other, "kind": "real", "state": 0, "amount": None if elide else jgen.amt(-tot, CM[cc], dec), "cost": None,
+              "assert": None, "note": ""}]
+    return {"date": jgen.day_of(2020, 1, 1) + day, "aux": None, "state": state, "code": "", "payee": payee, "note": "", "posts": posts}
+
+
+def growth_cases(rng):
+    """boundary / fixed cases for costs and lots on matched postings, rule lines with their own cost, amount
+    expressions, %(...) accounts, posting state, rule notes, check / assert lines, any() / all()."""
     cs = []
-    for _ in range(n):
-        g = jgen.Gen(rng, comms=COMMS, p_cost=0.5, p_elide=0.3, magnitudes=[10, 100])
-        xs = [g.xact() for _ in range(rng.randint(1, 4))]
-        rule = {"pred": {"t": "acct", "pat": rng.choice(["Expenses", "Assets", "e", "Food"])}, "syntax": "query",
-                "lines": [{"account": "Seen:$account", "kind": "virtual", "amount": mult_amount(rng.choice(["1", "0.5", "-0.25"]))}]}
-        cs.append({"xacts": xs, "rules": [rule], "items": [{"k": "r", "i": 0}] + [{"k": "x", "i": k} for k in range(len(xs))]})
-    return cs
+    F = Fraction
+    RX = lambda pred, body, syntax="query": {"pred": pred, "syntax": syntax, "body": body}
+    A = lambda pat: {"t": "acct", "pat": pat}
+    J1 = lambda xs, rules: {"xacts": xs, "rules": rules, "items": [{"k": "r", "i": k} for k in range(len(rules))] + [{"k": "x", "i": k} for k in range(len(xs))]}
+    food = lambda d, st=0, q="10.00": mk_xact(d, "payee %d" % d, [("Expenses:Food", "real", q, "$"), ("Assets:Cash", "real", "-" + q, "$")], state=st)
+    # ---- (1) matched postings with costs / lots: multiplier, fixed, expression; balanced pairs; unbalanced single
+    bodies = [[P("Seen:$account", amount=mult_amount("0.5"))],
+              [P("B1", "bvirtual", mult_amount("1")), P("B2", "bvirtual", mult_amount("-1"))],
+              [P("R1", "real", mult_amount("0.25")), P("R2", "real", expr="-amount * 0.25", form=["mul", "-0.25"])],
+              [P("Fix", amount=jgen.amt(F(5), CM["EUR"]))],
+              [P("E", expr="amount / 3", form=["div", 3]), P("E2", expr="2", form=["const", "2"])],
+              [P("U", "bvirtual", mult_amount("1"))]]
+    for body in bodies:
+        xs = [cost_xact(1, "payee 1", "Assets:Stock", "10", "AAA", "2.00", "$", True),
+              cost_xact(2, "payee 2", "Assets:Stock", "3", "AAA", "10.00", "$", False, elide=False),
+              cost_xact(3, "payee 3", "Assets:Stock", "-3", "AAA", "1.005", "$", True),
+              cost_xact(4, "payee 4", "Assets:Stock", "-7.50", "EUR", "123", "AAA", False, state=1),
+              cost_xact(5, "payee 5", "Assets:Stock", "0.01", "EUR", "0.01", "$", True, state=2)]
+        cs.append(J1(xs, [RX(A("Stock"), copy.deepcopy(body))]))
+        cs.append(J1([lot_xact(rng, jgen.day_of(2020, 2, k + 1)) for k in range(3)], [RX({"t": "const", "b": True}, copy.deepcopy(body), "expr")]))
+    # ---- (2) rule lines with their own cost: per unit / total, negative amount, virtual / must-balance, same commodity
+    c_usd = lambda q, pu: dict(jgen.amt(F(q), CM["$"]), per_unit=pu)
+    c_aaa = lambda q, pu: dict(jgen.amt(F(q), CM["AAA"]), per_unit=pu)
+    for body in [[P("C", amount=jgen.amt(F(5), CM["AAA"]), cost=c_usd("2.00", True))],
+                 [P("C", amount=jgen.amt(F(-5), CM["AAA"]), cost=c_usd("2.00", False))],
+                 [P("C", "bvirtual", jgen.amt(F(5), CM["AAA"]), cost=c_usd("2.00", True)), P("D", "bvirtual", jgen.amt(F("-10.00"), CM["$"]))],
+                 [P("C", "real", jgen.amt(F(-5), CM["AAA"]), cost=c_usd("7.50", False)), P("D", "real", jgen.amt(F("7.50"), CM["$"]))],
+                 [P("C", "bvirtual", jgen.amt(F(5), CM["AAA"]), cost=c_usd("2.00", True)), P("D", "bvirtual", jgen.amt(F("-5"), CM["AAA"]))],   # unbalanced: cost counts
+                 [P("C", amount=mult_amount("0.5"), cost=c_usd("2.00", True))],                 # virtual: cost in the amount's own commodity, never verified
+                 [P("C", "bvirtual", mult_amount("0.5"), cost=c_usd("2.00", True)), P("D", "bvirtual", jgen.amt(F("-1.00"), CM["$"]))],   # verified: same-commodity cost
+                 [P("C", "bvirtual", mult_amount("0.5"), cost=c_aaa("2", True)), P("D", "bvirtual", jgen.amt(F("-1"), CM["AAA"]))]]:
+        cs.append(J1([food(1), food(2, 1)], [RX(A("Food"), body)]))
+    # ---- amount expressions: every form on $, EUR, AAA postings (addlit mismatching commodity is an error)
+    exprs = [("amount * 0.1", ["mul", "0.1"]), ("-amount * 0.5", ["mul", "-0.5"]), ("amount / 3", ["div", 3]), ("0.5", ["const", "0.5"]),
+             ("2", ["const", "2"]), ("amount * 0.5 + amount * 0.5", ["mul", "1"]), ("amount + 1.000 EUR", ["addlit", "1/1", "EUR", 3]),
+             ("2.50 EUR", ["fixed", "5/2", "EUR", 2]), ("amount * 0", ["mul", "0"]), ("amount * 0.123456789", ["mul", "0.123456789"])]
+    for text, form in exprs:
+        xs = [food(1), mk_xact(2, "payee 2", [("Expenses:Food", "real", "7.25", "EUR"), ("Assets:Cash", "real", None, "EUR")]),
+              mk_xact(3, "payee 3", [("Expenses:Food", "real", "3", "AAA"), ("Assets:Cash", "real", "-3", "AAA")])]
+        for sel in ([0, 1, 2], [1], [2, 1]):
+            cs.append(J1([copy.deepcopy(xs[k]) for k in sel], [RX(A("Food"), [P("X:%(account)", expr=text, form=form), P("Y:%(payee)", amount=mult_amount("1"))])]))
+    # ---- (3) state: transaction state x rule line state
+    for xst in (0, 1, 2):
+        body = [P("S0", state=0, amount=mult_amount("1")), P("S1", state=1, amount=mult_amount("1")), P("S2", state=2, amount=mult_amount("1"))]
+        x = food(1, xst)
+        x["posts"][1]["state"] = 2 if xst != 2 else 1
+        cs.append(J1([x], [RX(A("e"), body)]))
+    # ---- (4) notes: before every line / after a line / inline; matched posting with and without its own note; two rules
+    nb = [N("lead"), P("A", amount=mult_amount("1"), note="inl"), N("after a"), P("B", amount=mult_amount("2")), P("C", amount=mult_amount("3")), N("after c"), N("after c2")]
+    x = food(1)
+    x["posts"][0]["note"] = "own"
+    x["note"] = "xn"
+    cs.append(J1([x, food(2)], [RX(A("Food"), copy.deepcopy(nb))]))
+    cs.append(J1([copy.deepcopy(x), food(2)], [RX(A("Food"), copy.deepcopy(nb)), RX(A("e"), [N("second"), N("second b")])]))
+    cs.append(J1([food(1)], [RX(A("Zzz"), copy.deepcopy(nb))]))
+    # ---- checks: assert / check / expr, true / false, order
+    for body in [[CK("assert", "gt", 0), P("A", amount=mult_amount("1"))],
+                 [CK("assert", "gt", 5), P("A", amount=mult_amount("1"))],
+                 [CK("assert", "ge", 10), P("A", amount=mult_amount("1"))],
+                 [CK("assert", "gt", 10), P("A", amount=mult_amount("1"))],
+                 [CK("check", "gt", 10), P("A", amount=mult_amount("1"))],
+                 [CK("check", "lt", 5), CK("check", "gt", 100), P("A", amount=mult_amount("1")), CK("check", "le", 10)],
+                 [CK("check", "gt", 100), CK("assert", "gt", 100)],
+                 [CK("assert", "gt", 100), CK("check", "gt", 100)],
+                 [CK("expr", "gt", 100), P("A", amount=mult_amount("1"))],
+                 [P("A", "bvirtual", mult_amount("1")), CK("assert", "lt", 0)]]:
+        cs.append(J1([food(1), food(2, q="3.00")], [RX({"t": "gt", "n": 0}, body, "expr")]))
+        cs.append(J1([food(1), food(2, q="3.00")], [RX(A("Food"), copy.deepcopy(body))]))
+    # ---- (5) any() / all(): the live posting list
+    five = lambda: mk_xact(1, "payee 10", [("Expenses:Food", "real", "10.00", "$"), ("Expenses:Food:Out", "real", "3.00", "$"),
+                                           ("Expenses:Rent", "real", "20", "AAA"), ("Assets:Cash", "real", "-13.00", "$"), ("Assets:Bank", "real", "-20", "AAA")])
+    ANY = lambda p: {"t": "any", "a": p}
+    ALL = lambda p: {"t": "all", "a": p}
+    gt = lambda n: {"t": "gt", "n": n}
+    for pr in [ANY(A("Auto")), {"t": "or", "a": ANY(A("Auto")), "b": A("Rent")}, ALL(gt(-100)), ALL(gt(0)),
+               {"t": "and", "a": ALL(A("s")), "b": gt(0)}, ANY(gt(15)), {"t": "and", "a": A("Cash"), "b": ANY(A("Auto"))},
+               {"t": "or", "a": {"t": "and", "a": A("Bank"), "b": ANY(A("Auto"))}, "b": A("Rent")},
+               {"t": "ite", "c": ANY({"t": "lt", "n": -15}), "a": A("Food"), "b": A("Cash")},
+               ANY({"t": "and", "a": A("Auto"), "b": {"t": "lt", "n": 0}}), ALL(A("e"))]:
+        cs.append(J1([five(), five()], [RX(pr, [P("Auto:Gen", amount=mult_amount("1"))], "flat")]))
+        cs.append(J1([five()], [RX(A("Rent"), [P("Auto:First", amount=mult_amount("1"))]), RX(pr, [P("Zed", amount=mult_amount("-1"))], "flat")]))
+    return [copy.deepcopy(norm_journal(c)) for c in cs]
 
 
 def malformed_stream(ctx):
     """garbage to the driver; malformed rules to ledger (must be an error, never a partial report)."""
     lines = ["autoxact.load", "autoxact.load\t{", "autoxact.load\t{\"xacts\":[]}", "autoxact.load\t{\"xacts\":[],\"rules\":[],\"items\":[{\"k\":\"r\",\"i\":3}]}",
-             "autoxact.load\t{\"xacts\":[],\"rules\":[{\"pred\":{\"t\":\"nope\"},\"lines\":[],\"line\":1}],\"items\":[]}", "autoxact.nope\tx"]
-    want = ["err\tbad-op", "err\tbad-json", "err\tbad-json", "err\tbad-json", "err\tbad-json", "err\tbad-op"]
+             "autoxact.load\t{\"xacts\":[],\"rules\":[{\"pred\":{\"t\":\"nope\"},\"body\":[],\"line\":1}],\"items\":[]}", "autoxact.nope\tx",
+             "autoxact.load\t{\"xacts\":[],\"rules\":[{\"pred\":{\"t\":\"const\",\"b\":true},\"body\":[{\"t\":\"check\",\"kind\":\"assert\",\"expr\":\"amount >\"}],\"line\":1}],\"items\":[]}"]
+    want = ["err\tbad-op", "err\tbad-json", "err\tbad-json", "err\tbad-json", "err\tbad-json", "err\tbad-op", "err\tbad-json"]
     got = vflib.driver_run(lines)
     for l, g, w in zip(lines, got, want):
         ctx.count()
         if g != w:
             ctx.tie_broken("corr:malformed-driver", "driver answered %r to %r, expected %r" % (g, l, w))
     bad_headers = ["=", "= expr (", "= expr (amount >", "= /unterminated", "= payee"]
-    for h in bad_headers:
+    bad_bodies = [None, None, None, None, None, "    (X)  (amount *", "    assert", "    (X)  1 @"]
+    for k, h in enumerate(bad_headers + ["= Food", "= Food", "= Food"]):
         x = mk_xact(1, "payee 1", [("Expenses:Food", "real", "10.00", "$"), ("Assets:Cash", "real", "-10.00", "$")])
         j = {"xacts": [x], "rules": [{"pred": {"t": "const", "b": True}, "syntax": "raw", "raw_header": h,
                                       "lines": [{"account": "X", "kind": "virtual", "amount": mult_amount("1")}]}],
              "items": [{"k": "r", "i": 0}, {"k": "x", "i": 0}]}
         text = render(j, True)
+        if bad_bodies[k]:
+            text = text.replace("    (X)  1\n", bad_bodies[k] + "\n", 1)
         rc, out, err = run_ledger(text)
         ctx.count()
-        ctx.feature("malformed-rule-header")
+        ctx.feature("malformed-rule")
         if rc == 0 or out.strip():
-            ctx.violation("C16:malformed-rule-accepted", "rule header %r is accepted or yields a partial report" % h,
+            ctx.violation("C16:malformed-rule-accepted", "malformed rule %r is accepted or yields a partial report" % (bad_bodies[k] or h),
                           {"journal": text, "ledger_stdout": out[:2000], "ledger_stderr": err[:2000]})
 
 
@@ -903,15 +1461,17 @@ def run(tier, seed):
     ctx = Check("C16", tier, seed)
     ctx.mism = []
     ctx.reported = set()
-    ctx.rule = ("journals interleaving 0-4 rules (account terms, payee terms, expr over amount<cmp>N, combined with not/and/or/?:, in "
-                "query or expr syntax; 0-4 lines, multipliers or fixed amounts, real/(virtual)/[balanced], $account) with 1-30 "
-                "balanced-by-construction transactions (elided amounts, several commodities, virtual postings), rules before / between / "
-                "after; ~10% of journals carry a rule that unbalances, ~0.4% of transactions are unbalanced themselves; plus "
-                "bounded-exhaustive position x kind x amount type x predicate family; non-trivial = >=1 rule and (>=1 generated row or "
-                "an error); distinct by journal text")
+    ctx.rule = ("journals interleaving 0-4 rules (account terms, payee terms, expr over amount<cmp>N, combined with not/and/or/?:, any()/all(), in "
+                "query or expr syntax; 0-4 lines with multipliers, fixed amounts or amount expressions, real/(virtual)/[balanced], own state, own "
+                "@/@@ cost, inline notes, $account / %(account) / %(payee); rule note lines; check/assert/expr lines) with 1-30 "
+                "balanced-by-construction transactions (elided amounts, several commodities, virtual postings, @/@@ costs, explicit lots, "
+                "states, notes), rules before / between / after; ~10% of journals carry a rule that unbalances, ~4% of rules a failing assert, "
+                "~0.4% of transactions are unbalanced themselves; plus bounded-exhaustive position x kind x amount type x predicate family and "
+                "boundary sets per feature; non-trivial = >=1 rule and (>=1 generated row or an error); distinct by journal text")
     ctx.assumptions = ["boost::regex icase search = case-insensitive substring for metacharacter-free patterns",
                        "GMP rational arithmetic is exact",
-                       "reg prints postings in transaction order, postings in xact.posts order (no sort option given)"]
+                       "reg prints postings in transaction order, postings in xact.posts order (no sort option given)",
+                       "format_t on an account name evaluates %(account) / %(payee) to the matched posting's account / payee"]
     if not ctx.prepare():
         return ctx.finish()
     rng = ctx.rng
@@ -919,8 +1479,10 @@ def run(tier, seed):
     ctx.extra_cov["exhaustive_cases"] = len(exh)
     process(ctx, fixed_cases(), "fixed")
     bnd = boundary_cases()
-    ctx.extra_cov["boundary_cases"] = len(bnd)
+    gro = growth_cases(rng)
+    ctx.extra_cov["boundary_cases"] = len(bnd) + len(gro)
     process(ctx, bnd, "boundary")
+    process(ctx, gro, "growth-boundary")
     process(ctx, exh, "exhaustive")
     n = 450 if ctx.tier == "quick" else 12000
     if ctx.ties_broken:
@@ -931,10 +1493,12 @@ def run(tier, seed):
     for s in range(0, n, CH):
         cases = []
         for k in range(min(CH, n - s)):
-            cases.append(gen_journal(rng, big=(k % 7 == 0)))
+            if k % 5 == 4:
+                # the plain fragment of round 1 (no costs, notes, checks, expressions)
+                cases.append(gen_journal(rng, big=(k % 7 == 0), p_cost=0.0, rich=False, p_flat=0.0, p_failing_assert=0.0, p_lot=0.0))
+            else:
+                cases.append(gen_journal(rng, big=(k % 7 == 0)))
         process(ctx, cases, "random")
-    # oracle-only stream with costs (the model answers unsupported)
-    process(ctx, cost_cases(rng, 40 if ctx.tier == "quick" else 600), "cost")
     malformed_stream(ctx)
     if ctx.mism:
         ctx.extra_cov["mismatches"] = ctx.mism[:5]
